@@ -310,6 +310,8 @@ pub struct Sched {
     pub actors: Vec<Actor>,
     pub steps: u64,
     pub trace: Vec<u16>,
+    /// extra environment turns granted when nothing is runnable
+    pub idle_grace: usize,
 }
 
 /// yield once to the scheduler
@@ -328,7 +330,7 @@ pub fn yield_now() -> impl Future<Output = ()> {
 
 impl Sched {
     pub fn new() -> Sched {
-        Sched { actors: vec![], steps: 0, trace: vec![] }
+        Sched { actors: vec![], steps: 0, trace: vec![], idle_grace: 0 }
     }
 
     pub fn spawn(&mut self, name: &str, fut: impl Future<Output = ()> + 'static) -> usize {
@@ -423,8 +425,21 @@ impl Sched {
                 if PROGRESS.load(Ordering::SeqCst) != before || progressed || !self.runnable().is_empty() {
                     continue;
                 }
-                if goal(self) {
-                    return Outcome::Goal;
+                // the goal closure doubles as the environment's turn (fake peers answer there): it
+                // may have made something runnable again
+                // (environments with delayed reactions get `idle_grace` further turns)
+                let mut woke = false;
+                for _ in 0..=self.idle_grace {
+                    if goal(self) {
+                        return Outcome::Goal;
+                    }
+                    if !self.runnable().is_empty() {
+                        woke = true;
+                        break;
+                    }
+                }
+                if woke {
+                    continue;
                 }
                 return Outcome::Quiescent;
             }
